@@ -41,7 +41,7 @@ RemoveOperator(st, a) ==
 Execute(st, a) ==
     LET fails == (IF a.op \notin a.auth THEN {"named_auth"} ELSE {})
                  \cup (IF ~IsOp(st, a.op) THEN {"is_operator"} ELSE {})
-                 \cup (IF a.fn = "boom" THEN {"target_ok"} ELSE {})
+                 \cup (IF a.fn \in {"boom", "fail2", "fail7"} THEN {"target_ok"} ELSE {})   \* the target traps / fails with a contract error
     IN IF fails # {} THEN Rej(st, First(Order, fails), fails)
        ELSE Acc(st, a.arg, <<[k |-> "probe_call", target |-> a.target, fn |-> a.fn, arg |-> a.arg]>>)
 
